@@ -233,8 +233,9 @@ Definition parse_dts (P : parser) (s : string) : result dt :=
   if String.eqb s "now" || String.eqb s "today" then Err Unsupported
   else do t <- P s; Ok (ensure_tz t).
 
-(* datetime.combine(<date d>, start.time(), tzinfo=utc) — start.time() is naive *)
-Definition at_start_time (start : dt) (days : Z) : dt := mkDT days (d_us start) (Some 0).
+(* datetime.combine(<date d>, start.time(), tzinfo=start.tzinfo): the start's wall time, in the
+   start's zone, on another day *)
+Definition at_start_time (start : dt) (days : Z) : dt := mkDT days (d_us start) (d_tz start).
 
 Definition norm_start (P : parser) (now : dt) (a : arg) : result (dt * precision) :=
   match a with
@@ -249,10 +250,10 @@ Definition norm_until (P : parser) (start : dt) (a : arg) : result (option dt) :
   else match a with
        | AStr s =>
          if is_datetime s
-         then do t <- parse_dts P s; Ok (Some (mkDT (d_days t) (d_us t) (Some 0)))
-         else do t <- P s; Ok (Some (at_start_time start (d_days t)))
-       | ADateTime t => Ok (Some (at_start_time start (d_days t)))   (* isinstance(until, date) *)
-       | ADate d => Ok (Some (at_start_time start d))
+         then do t <- parse_dts P s; Ok (Some t)                     (* the instant written *)
+         else do t <- P s; Ok (Some (ensure_tz (at_start_time start (d_days t))))
+       | ADateTime t => Ok (Some (ensure_tz t))                      (* tested before `date` *)
+       | ADate d => Ok (Some (ensure_tz (at_start_time start d)))
        | _ => dge
        end.
 
@@ -362,7 +363,7 @@ Fixpoint specials (P : parser) (start : dt) (mr md : method) (a : arg) : result 
        | x :: r => do c <- specials P start mr md x; do cs <- go r; Ok (c ++ cs)
        end) l
   | ARule rs => Ok [CSet mr rs]
-  | ADateTime t => Ok [CDate md t]
+  | ADateTime t => Ok [CDate md (ensure_tz t)]          (* a naive value means UTC *)
   | ADate d => Ok [CDate md (at_start_time start d)]
   | AStr s => do t <- P s; Ok [CDate md (at_start_time start (d_days t))]   (* parse_date *)
   | _ => type_error
@@ -379,7 +380,7 @@ Fixpoint flatten (a : arg) : list arg :=
 Definition leaf_call (P : parser) (start : dt) (mr md : method) (a : arg) : result call :=
   match a with
   | ARule rs => Ok (CSet mr rs)
-  | ADateTime t => Ok (CDate md t)
+  | ADateTime t => Ok (CDate md (ensure_tz t))
   | ADate d => Ok (CDate md (at_start_time start d))
   | AStr s => do t <- P s; Ok (CDate md (at_start_time start (d_days t)))
   | _ => type_error
